@@ -8,8 +8,8 @@ from mc.kit import E2, ProbeFuture, snapshot, brief
 from more_executors._impl import futures as F
 
 VALS = {"1": 1, "x": "x", "[0]": [0], "0": 0, "''": "", "None": None, "[]": []}
-OUTS = tuple(VALS) + ("exc", "cancelled", "never")
-SMALL = ("1", "0", "None", "exc", "cancelled", "never")
+OUTS = tuple(VALS) + ("exc", "cancelled", "never", "running")
+SMALL = ("1", "0", "None", "exc", "cancelled", "never", "running")
 
 
 def truthy(o):
@@ -69,6 +69,9 @@ def hbody(mc, p):
     outs = p["outs"]
     n = len(outs)
     ins = [ProbeFuture(mc, "in%d" % i) for i in range(n)]
+    for i in range(n):
+        if outs[i] == "running":
+            ins[i].set_running_or_notify_cancel()       # refuses cancel(), never finishes
     args = list(ins)
     if p["shield"] is not None:
         args[p["shield"]] = F.f_nocancel(ins[p["shield"]])
@@ -76,7 +79,7 @@ def hbody(mc, p):
         args = args + [args[0]]
     out = (F.f_or if p["op"] == "or" else F.f_and)(*args)
     order = []
-    pending = [i for i in range(n) if outs[i] != "never"]
+    pending = [i for i in range(n) if outs[i] not in ("never", "running")]
     cancelled_out = False
     while True:
         choices = [("in", i) for i in pending]
